@@ -21,9 +21,9 @@ import functools
 import itertools
 
 NAME = "fillomino"
-STATUS = "differential only"
+STATUS = "model+differential"
 THEOREMS = []
-LEAN_CMD = None
+LEAN_CMD = "puz_fillomino"
 
 _SHAPES = [(1, 1), (1, 2), (2, 1), (1, 3), (3, 1), (1, 4), (4, 1), (1, 5), (5, 1), (2, 2), (2, 3), (3, 2), (2, 4), (4, 2), (3, 3),
            (2, 5), (5, 2), (3, 4), (4, 3)]
@@ -167,3 +167,11 @@ def classify(problem, description):
     if "raised" in description:
         return "raises"
     return "checkered" if problem.get("checkered") else "mismatch"
+
+
+def _table(t):
+    return "(" + " ".join("(" + " ".join(str(v) for v in row) + ")" for row in t) + ")"
+
+
+def lean_line(problem):
+    return "(puz_fillomino %d %d %s %s)" % (problem["height"], problem["width"], _table(problem["problem"]), "T" if problem.get("checkered") else "F")
